@@ -104,7 +104,7 @@ def translator_problems(prop):
         out.append("checksum translator: " + st["checksum_translator"])
     for f in st.get("logic_failed", []):
         # a function that could not be translated concerns the properties whose Props file restates its tie
-        if f["group"] == "*" or ("Proofs/Tie%s.v" % f["group"]) in files:
+        if f["group"] == "*" or ("Gen/%sGen.v" % f["group"]) in files:
             out.append("logic translator: %s (%s) could not be translated from the current source: %s" % (f["function"], f["source"], f["why"]))
     return out
 
